@@ -16,6 +16,8 @@ pub fn bin_for(profile: &str) -> PathBuf {
     let r = root().join("target");
     match profile {
         "asan" => r.join("asan/x86_64-unknown-linux-gnu/rel/gmc"),
+        "par" => r.join("par/chk/gmc-par"),
+        "parreal" => r.join("parreal/chk/gmc-par-real"),
         p => r.join(p).join(p).join("gmc"),
     }
 }
